@@ -31,6 +31,9 @@ class SideBar(TemplateElement):
         super().__init__(loader=self.lookup_loader(template_lookup))
         self.ob = ob
         self.template_lookup = template_lookup
+        # The ids of the expandable items only have to be unique within one page: number them per sidebar,
+        # such that they do not depend on what was rendered before in this process.
+        ExpandableItem.last_ExpandableItem_id = 0
 
 
     @renderer
